@@ -12,6 +12,7 @@ From Coq Require Import String Ascii.
 From Coq Require Import List NArith Bool.
 From Gluon Require Import Model.Chunks Model.SqlBindFacts Model.RelDb Model.RelDbFacts
   Proofs.ChunksProofs Proofs.RelDbProofs Gen.FactsSqlBind.
+From Gluon Require Import Model.WrapTx Proofs.WrapTxProofs Gen.FactsWrapTx.
 Import ListNotations.
 Open Scope list_scope.
 Open Scope N_scope.
@@ -95,6 +96,48 @@ Theorem C08_failing_op_aborts_tx : forall ex ops1 o ops2 ab d d1 rs e,
   run_tx ex (mkTx (ops1 ++ o :: ops2) ab) d = (d, None).
 Proof. exact failing_op_aborts_tx. Qed.
 Print Assumptions C08_failing_op_aborts_tx.
+
+(* ---- wrapTx at the level of the connection (Model/WrapTx.v): the error of the body is an arbitrary value ---- *)
+(* source fact: in wrapTx the branch taken when the body returns an error reaches tx.Rollback() on every path (no return,
+   goto, panic or exit before the first statement that calls it unconditionally) *)
+Theorem C08_error_branch_rolls_back : rollback_on_every_path wraptx_error_branch = true.
+Proof. vm_compute. reflexivity. Qed.
+Print Assumptions C08_error_branch_rolls_back.
+
+(* whatever error value the body returns (an ordinary error, context.Canceled of a derived context, a wrapper, ...) and
+   whatever it wrote before: the connection is as before the transaction, same committed database, no open transaction,
+   and the caller gets that error *)
+Theorem C08_any_error_leaves_no_trace : forall (state err res : Type) (body : state -> state * (res + err)) (c : conn state) (e : err),
+  open_tx c = None -> snd (body (committed c)) = inr e ->
+  wrap_tx (fun _ => negb (rollback_on_every_path wraptx_error_branch)) body c = (c, inr e).
+Proof. exact (fun state err res => wrap_tx_any_error state err res (rollback_on_every_path wraptx_error_branch) eq_refl). Qed.
+Print Assumptions C08_any_error_leaves_no_trace.
+
+(* and the next Read / Write finds no transaction left open *)
+Theorem C08_client_usable_after_any_transaction : forall (state err res : Type) (body : state -> state * (res + err)) (c : conn state),
+  usable (fst (wrap_tx (fun _ => negb (rollback_on_every_path wraptx_error_branch)) body c)) = true.
+Proof. exact (fun state err res => wrap_tx_usable state err res (rollback_on_every_path wraptx_error_branch) eq_refl). Qed.
+Print Assumptions C08_client_usable_after_any_transaction.
+
+(* over the operations of the interface this is the functional transaction run_tx of the theorems above, for every
+   error value that aborts it *)
+Theorem C08_wraptx_is_functional_tx : forall (err : Type) ex (op_err : err) ops (abort : option err) d,
+  let w := wrap_tx (fun _ => negb (rollback_on_every_path wraptx_error_branch)) (ops_body ex op_err ops abort) (mkConn d None) in
+  let t := mkTx ops (match abort with Some _ => true | None => false end) in
+  committed (fst w) = fst (run_tx ex t d) /\ open_tx (fst w) = None /\
+  (match snd w with inl rs => Some rs | inr _ => None end) = snd (run_tx ex t d).
+Proof. exact (fun err => wrap_tx_is_run_tx err (rollback_on_every_path wraptx_error_branch) eq_refl). Qed.
+Print Assumptions C08_wraptx_is_functional_tx.
+
+(* a branch that returns early for some error leaves the transaction open with its writes *)
+Theorem C08_early_return_refuted :
+  let body : nat -> nat * (unit + bool) := fun s => (S s, inr true) in
+  let early : bool -> bool := fun e => e in
+  wrap_tx early body (mkConn 0%nat None) = (mkConn 0%nat (Some 1%nat), inr true) /\
+  usable (fst (wrap_tx early body (mkConn 0%nat None))) = false /\
+  usable (fst (wrap_tx (fun _ => false) body (mkConn 0%nat None))) = true.
+Proof. exact wrap_tx_early_return_refuted. Qed.
+Print Assumptions C08_early_return_refuted.
 
 (* ---- the facts of the current source (generated table; proved by computation) ---- *)
 (* every statement of every chunk loop binds its arguments from the chunk and has as many placeholders as arguments,
